@@ -54,15 +54,11 @@ def merge_root(ours, theirs):
 
 def merge_kf(ours, theirs):
     a, b = json.loads(ours), json.loads(theirs)
-    ids = {f["id"]: f for f in a["findings"]}
+    keys = {(f["id"], f["property"]) for f in a["findings"]}
     for f in b["findings"]:
-        if f["id"] in ids and ids[f["id"]] != f:
-            # theirs is the owner's newer version unless ours was touched after the fork
-            ids[f["id"]] = f
-        elif f["id"] not in ids:
+        if (f["id"], f["property"]) not in keys:
             a["findings"].append(f)
-            ids[f["id"]] = f
-    a["findings"] = [ids[f["id"]] for f in a["findings"]]
+            keys.add((f["id"], f["property"]))
     a["fixed"] = union_lines(a.get("fixed", []), b.get("fixed", []))
     return json.dumps(a, indent=1, ensure_ascii=False) + "\n"
 
